@@ -152,6 +152,17 @@ def generic_case(draw):
     return {"spec": s, "kind": kind}
 
 
+def vandalise(g):
+    """what a user may do with an objective object they were given"""
+    if hasattr(g, "ovo"):
+        g.ovo = not g.ovo
+    g.epsilon = 0.3
+    if hasattr(g, "kernel"):
+        g.kernel, g.kernel_params = "rbf", {"gamma": 7.0}
+    if hasattr(g, "metric"):
+        g.metric, g.metric_params = "cosine", None
+
+
 def oracle_generic(case):
     s, kind = case["spec"], case["kind"]
     label = E.label(s)
@@ -185,7 +196,20 @@ def oracle_generic(case):
                 "chi2": lambda: G.ChiSquareGEMINI(ovo=ovo)}[base]()
         other = E.CLASSES[s["cls"]](**dict(kw, gemini=inst))
         names = [f"gemini='{s['gemini']['name']}'", f"gemini={type(inst).__name__}(ovo={ovo})"]
+    if kind in ("none", "name_instance", "rim0", "sparse_mi"):
+        # the objective handed out for a name belongs to whoever asked for it: a user who customises the object they got
+        # (another kernel, another epsilon, one-vs-one) changes that object only
+        for victim in (est, other if kind in ("none", "rim0", "sparse_mi") else est):
+            vandalise(victim.get_gemini())
     compare_fits(label, [est, other], [(X, y), (X, y)], names)
+    if kind in ("none", "name_instance"):
+        want_base, want_ovo = ("mmd", False) if kind == "none" else R.NAMES[s["gemini"]["name"]]
+        g_now = est.get_gemini()
+        if getattr(g_now, "ovo", False) is not want_ovo or abs(getattr(g_now, "epsilon", 1e-12) - 1e-12) > 0 or \
+                getattr(g_now, "kernel", "linear") != "linear" or getattr(g_now, "metric", "euclidean") != "euclidean":
+            raise Violation(f"{label}: get_gemini() for {names[0]} now returns {type(g_now).__name__} with "
+                            f"{ {k: v for k, v in vars(g_now).items()} } - not the documented objective of that name (an object "
+                            f"handed out earlier was customised by its owner)")
     if s["cls"] in E.SPARSE and s.get("alpha", 0) > 0 and not s.get("dynamic"):
         pa = {"alpha_multiplier": 3.0, "min_features": 1, "max_patience": 1}
         e1, _ = E.build(s, X)
